@@ -192,8 +192,13 @@ def _innermost_shexer_frame(tb):
 
 def call_guarded(fn, timeout=None):
     """-> (status, value, exc_type, frame)"""
+    # the watchdog counts the CPU time of this process (a loop that never ends burns it whatever the load of the machine; a
+    # descheduled process does not); a generous wall-clock alarm stays behind it for a call that blocks without computing
+    t = timeout or CASE_TIMEOUT
     old = signal.signal(signal.SIGALRM, _alarm)
-    signal.alarm(timeout or CASE_TIMEOUT)
+    oldp = signal.signal(signal.SIGPROF, _alarm)
+    signal.setitimer(signal.ITIMER_PROF, t)
+    signal.alarm(max(60, 10 * t))
     try:
         v = fn()
         return "ok", v, "", ""
@@ -202,8 +207,10 @@ def call_guarded(fn, timeout=None):
     except Exception as e:       # noqa
         return "raise", None, type(e).__name__, _innermost_shexer_frame(sys.exc_info()[2])
     finally:
+        signal.setitimer(signal.ITIMER_PROF, 0)
         signal.alarm(0)
         signal.signal(signal.SIGALRM, old)
+        signal.signal(signal.SIGPROF, oldp)
 
 
 class Recorder(object):
